@@ -21,6 +21,7 @@ PROPS = {
     "C01": ["contracts.c01_simplifier"],
     "C02": ["contracts.c01_simplifier", "contracts.c02_model"],
     "C03": ["contracts.c03_typechecker", "contracts.c06_constructors"],
+    "C04": ["contracts.c04_hashcons", "contracts.c06_constructors", "contracts.c05_substitution"],
     "C05": ["contracts.c05_substitution"],
     "C06": ["contracts.c06_constructors"],
     "C07": ["contracts.c07_printers"],
